@@ -18,6 +18,11 @@ RULE = (
     "is computed; an exhausted generator raises StopIteration on each of 3 further advances. Both builds. "
     "distinct = body hash; non-trivial = at least 1 await and 1 Value."
 )
+RULE += (
+    " 30% of the bodies hold a context (an AsyncContext subclass or a scoped-value override) across a span of "
+    "operations - entered at one step, left several awaits and Values later: resume/pause must alternate and "
+    "the scoped value be restored."
+)
 ASSUMPTIONS = ["generator bodies are deterministic and side-effect free apart from the operation counter"]
 UNIT_TIMEOUT = {"quick": 200, "thorough": 2400}
 
